@@ -19,9 +19,9 @@ def pkgsOfCalls (c : Cfg) (cs : List Call) : List Pkg :=
 def errsOfCalls (c : Cfg) (cs : List Call) : List Nat :=
   cs.flatMap fun cl => if !cl.opened || (c.extract cl.ext cl.path).err then [cl.ext] else []
 
-/-- one entry per `Extract` invocation that returned a non-empty inventory -/
+/-- one entry per `Extract` invocation that returned a non-empty inventory (packages, or findings only) -/
 def foundOfCalls (c : Cfg) (cs : List Call) : List Nat :=
-  cs.flatMap fun cl => if cl.opened && !(c.extract cl.ext cl.path).pkgs.isEmpty then [cl.ext] else []
+  cs.flatMap fun cl => if cl.opened && !((c.extract cl.ext cl.path).pkgs.isEmpty && !(c.extract cl.ext cl.path).other) then [cl.ext] else []
 
 theorem pkgsOfCalls_append (c : Cfg) (a b : List Call) : pkgsOfCalls c (a ++ b) = pkgsOfCalls c a ++ pkgsOfCalls c b := by
   simp [pkgsOfCalls, List.flatMap_append]
@@ -50,24 +50,29 @@ theorem runExtractor_book (c : Cfg) (hx : NoExtractorPanic c) (f : Faults) (s : 
     · exact ⟨⟨e, p, sz, false⟩, by simp, by simp [pkgsOfCalls], by simp [errsOfCalls], by simp [foundOfCalls]⟩
     · refine ⟨⟨e, p, sz, true⟩, ?_, ?_, ?_, ?_⟩ <;> simp only [hx e p, Bool.false_eq_true, if_false]
       · split <;> split <;> split <;> simp
-      · by_cases hpk : (c.extract e p).pkgs.isEmpty = true
-        · have : (c.extract e p).pkgs = [] := by simpa using hpk
-          simp only [hpk, if_true]
-          split <;> split <;> simp [pkgsOfCalls, this] <;> exact this
-        · simp only [hpk, Bool.false_eq_true, if_false]
+      · by_cases hk : ((c.extract e p).pkgs.isEmpty && !(c.extract e p).other) = true
+        · have hnil : (c.extract e p).pkgs = [] := by
+            simp only [Bool.and_eq_true, List.isEmpty_iff] at hk; exact hk.1
+          simp only [hk, if_true]
+          split <;> split <;> simp [pkgsOfCalls, hnil]
+        · simp only [hk, Bool.false_eq_true, if_false]
           split <;> split <;> simp [pkgsOfCalls]
       · by_cases he : (c.extract e p).err = true
         · simp only [he, if_true]
           split <;> split <;> simp [errsOfCalls, he]
         · simp only [he, Bool.false_eq_true, if_false]
           split <;> split <;> simp [errsOfCalls, he]
-      · by_cases hpk : (c.extract e p).pkgs.isEmpty = true
-        · have hnil : (c.extract e p).pkgs = [] := by simpa using hpk
-          simp only [hpk, if_true]
-          split <;> split <;> simp [foundOfCalls, hnil]
-        · have hne : (c.extract e p).pkgs ≠ [] := by simpa using hpk
-          simp only [hpk, Bool.false_eq_true, if_false]
-          split <;> split <;> simp [foundOfCalls, hne]
+      · by_cases hk : ((c.extract e p).pkgs.isEmpty && !(c.extract e p).other) = true
+        · have hk2 : (c.extract e p).pkgs = [] ∧ (c.extract e p).other = false := by simpa using hk
+          simp only [hk, if_true]
+          split <;> split <;> simp [foundOfCalls, hk2.1, hk2.2]
+        · have hk' : ((c.extract e p).pkgs.isEmpty && !(c.extract e p).other) = false := by
+            cases h : ((c.extract e p).pkgs.isEmpty && !(c.extract e p).other) with
+            | true => exact absurd h hk
+            | false => rfl
+          have hk2 : (c.extract e p).pkgs = [] → (c.extract e p).other = true := by simpa using hk'
+          simp only [hk', Bool.false_eq_true, if_false]
+          split <;> split <;> simp [foundOfCalls] <;> exact hk2
 
 theorem runExtractor_bookInv (c : Cfg) (hx : NoExtractorPanic c) (f : Faults) (base : List Call) (s : St) (e : Nat)
     (p : Path) (sz : Nat) (h : BookInv c base s) : BookInv c base (runExtractor c f s e p sz).1 := by
